@@ -1,6 +1,6 @@
 """C16 — configuration of the check (deductive tier under construction)."""
 PROPERTY = "C16"
-LEVEL = "other"
+LEVEL = "exploration"
 CONTRACT_MODULES = ["contracts.specfuns"]
 FUNCTIONS = []
 LEMMAS = []
